@@ -4,7 +4,7 @@
 out="$1"; : > "$out"
 export VERIF_REPO=/tmp/hbrepo VERIF_DIR=/tmp/hb
 cp /verif/known_findings.json /tmp/hb/
-for patch in $(ls /verif/seeded/*/patch.diff | sort -u); do
+for patch in $(ls /verif/seeded/${ONLY:-*}/patch.diff | sort -u); do
   name=$(echo $patch | sed 's#/tmp/mut/##; s#/verif/seeded/##; s#/out/#-#; s#/patch.diff##')
   cd /tmp/hbrepo && git checkout -q -- . && git apply "$patch" 2>/dev/null || { echo "$name: PATCH DOES NOT APPLY" >> "$out"; continue; }
   (cd /tmp/hb && cargo build --release --offline 2>&1 | grep -E "^error" -A 6 | head -20 >> "$out")
